@@ -168,7 +168,7 @@ func newPackage(program *loader.Program, pkgInfo *loader.PackageInfo, plugins []
 			if err != nil {
 				return nil, fmt.Errorf("stat %s: %v", fileInfo.fullpath, err)
 			}
-			f, err := os.OpenFile(fileInfo.fullpath, os.O_WRONLY, info.Mode())
+			f, err := os.OpenFile(fileInfo.fullpath, os.O_WRONLY|os.O_TRUNC, info.Mode())
 			if err != nil {
 				return nil, fmt.Errorf("opening %s: %v", fileInfo.fullpath, err)
 			}
